@@ -61,6 +61,7 @@ type KOp struct {
 	Name       string    `json:"name,omitempty"`
 	Cb         *Callback `json:"cb,omitempty"`
 	NewCas     uint64    `json:"newcas,omitempty"`
+	NewCasCur  bool      `json:"newcas_cur,omitempty"` // WithMeta: the new CAS is the one the document has now (if it has one)
 	XObj       *[]XKV    `json:"xobj,omitempty"` // WithMeta xattrs (nil: no xattrs)
 	IsJSON     bool      `json:"isjson,omitempty"`
 }
@@ -81,6 +82,7 @@ type Step struct {
 	Start  string `json:"start,omitempty"` // dump: zero|current|stale|bogus  (CAS of Key in Coll)
 	Plus   uint64 `json:"plus,omitempty"`  // dump: added to the resolved start CAS
 	KeysOnly bool `json:"keysonly,omitempty"` // dump: a KeysOnly feed
+	ViaBucket bool `json:"via_bucket,omitempty"` // dump: through Bucket.StartDCPFeed with Scopes naming every collection; the collection's share is kept
 	Fresh  bool   `json:"fresh,omitempty"`    // purge: through a handle opened for the purpose, which has opened no collection
 	Nested *KOp   `json:"nested,omitempty"` // kv (Update, WriteUpdateWithXattrs, WriteSubDoc, SubdocInsert): another call on the same key,
 	// made through another handle inside the window between the call's read and its compare-and-swap write
@@ -135,7 +137,7 @@ type kvInput struct {
 	Ops     []Step `json:"ops"`
 }
 
-var kvColls = []string{"_default._default", "s1.c1", "s1.c2"}
+var kvColls = []string{"_default._default", "s1.c1", "s1.c2", "s2.c1"} // s2.c1: the name of s1.c1 in another scope
 var kvKeys = []string{"k1", "k2", "k3"}
 var kvXnames = []string{"_sync", "_vv", "u1", "u2"}
 
@@ -439,6 +441,44 @@ func dumpFeedArgs(c *rosmar.Collection, start uint64, keysOnly bool) ([]sgbucket
 	case <-done:
 	case <-time.After(5 * time.Second):
 		return nil, fmt.Errorf("dump feed did not finish")
+	}
+	return evs, nil
+}
+
+// A dump of every collection of the bucket at once (Bucket.StartDCPFeed with Scopes); what it delivers for one
+// collection, in the order it came, must be what a dump of that collection alone delivers.
+func (k *kvRun) dumpViaBucket(c *rosmar.Collection, start uint64, keysOnly bool) ([]sgbucket.FeedEvent, error) {
+	_, order, err := k.existingColls()
+	if err != nil {
+		return nil, err
+	}
+	scopes := map[string][]string{}
+	for _, n := range order {
+		ds := dsName(n)
+		scopes[ds.ScopeName()] = append(scopes[ds.ScopeName()], ds.CollectionName())
+	}
+	want := c.GetCollectionID()
+	var mu sync.Mutex
+	var evs []sgbucket.FeedEvent
+	done := make(chan struct{})
+	args := sgbucket.FeedArguments{ID: "dump", Backfill: start, Dump: true, DoneChan: done, KeysOnly: keysOnly, Scopes: scopes}
+	if err := k.handles[0].StartDCPFeed(ctxBg, args, func(ev sgbucket.FeedEvent) bool {
+		mu.Lock()
+		if ev.CollectionID == want {
+			if ev.Opcode == sgbucket.FeedOpBeginBackfill || ev.Opcode == sgbucket.FeedOpEndBackfill {
+				ev.CollectionID = 0 // the bucket-level wrapper labels the markers too; a collection's own feed does not
+			}
+			evs = append(evs, ev)
+		}
+		mu.Unlock()
+		return true
+	}, nil); err != nil {
+		return nil, err
+	}
+	select {
+	case <-done:
+	case <-time.After(5 * time.Second):
+		return nil, fmt.Errorf("bucket-level dump feed did not finish")
 	}
 	return evs, nil
 }
@@ -1013,16 +1053,21 @@ func (k *kvRun) doKv(st Step) (opT Term, respT Term, err error) {
 			}
 		})
 		respT = casResp(co, e)
-	case "SetWithMeta":
+	case "SetWithMeta", "DeleteWithMeta":
+		if cur := k.resolveCas("current", st.Coll, st.Key); op.NewCasCur && cur != 0 {
+			op.NewCas = cur
+		}
+		if op.Kind == "DeleteWithMeta" {
+			opT = C("KDeleteWithMeta", N(cas), N(op.NewCas), N(uint64(op.Exp)), xcolTerm(op.XObj))
+			respT = okResp(c.DeleteWithMeta(ctxBg, key, cas, op.NewCas, op.Exp, xcolBytes(op.XObj)))
+			break
+		}
 		opT = C("KSetWithMeta", N(cas), N(op.NewCas), N(uint64(op.Exp)), xcolTerm(op.XObj), optStr(op.Val), B(op.IsJSON))
 		dt := sgbucket.FeedDataTypeRaw
 		if op.IsJSON {
 			dt = sgbucket.FeedDataTypeJSON
 		}
 		respT = okResp(c.SetWithMeta(ctxBg, key, cas, op.NewCas, op.Exp, xcolBytes(op.XObj), valBytes(op.Val), dt))
-	case "DeleteWithMeta":
-		opT = C("KDeleteWithMeta", N(cas), N(op.NewCas), N(uint64(op.Exp)), xcolTerm(op.XObj))
-		respT = okResp(c.DeleteWithMeta(ctxBg, key, cas, op.NewCas, op.Exp, xcolBytes(op.XObj)))
 	case "SetXattrs":
 		opT = C("KSetXattrs", xsTerm(op.Xs))
 		respT = casResp(c.SetXattrs(ctxBg, key, xsMap(op.Xs)))
@@ -1391,7 +1436,12 @@ func execKvInner(in kvInput, scratch string, prog *kvProgress) (Case, error) {
 			if err != nil {
 				return c, err
 			}
-			evs, err := dumpFeedArgs(col, start, st.KeysOnly)
+			var evs []sgbucket.FeedEvent
+			if st.ViaBucket {
+				evs, err = k.dumpViaBucket(col, start, st.KeysOnly)
+			} else {
+				evs, err = dumpFeedArgs(col, start, st.KeysOnly)
+			}
 			if err != nil {
 				return c, err
 			}
